@@ -5,13 +5,13 @@ import (
 	"crypto/sha256"
 	"fmt"
 
+	"github.com/ontio/ontology-crypto/keypair"
 	"github.com/polynetwork/poly/account"
 	"github.com/polynetwork/poly/common"
 	"github.com/polynetwork/poly/core/ledger"
 	"github.com/polynetwork/poly/core/signature"
 	"github.com/polynetwork/poly/core/store/ledgerstore"
 	"github.com/polynetwork/poly/core/types"
-	vconfig "github.com/polynetwork/poly/consensus/vbft/config"
 
 	"polysim/chain"
 	"polysim/kernel"
@@ -101,25 +101,14 @@ func (s *Sim) validSuccessor(nd *chain.Node, blk *types.Block, members []string)
 	for _, m := range members {
 		isMember[m] = true
 	}
-	hash := h.Hash()
-	good := map[string]bool{}
-	for _, bk := range h.Bookkeepers {
-		id := vconfig.PubkeyID(bk)
-		if !isMember[id] {
-			continue
-		}
-		for _, sg := range h.SigData {
-			if signature.Verify(bk, hash[:], sg) == nil {
-				good[id] = true
-				break
-			}
-		}
-	}
-	if len(good) < need {
-		return fmt.Sprintf("below-quorum(%d<%d)", len(good), need)
+	_ = isMember
+	if good := goodSigners(h, members); good < need {
+		return fmt.Sprintf("below-quorum(%d<%d)", good, need)
 	}
 	return ""
 }
+
+func sigOK(pk keypair.PublicKey, data, sig []byte) bool { return signature.Verify(pk, data, sig) == nil }
 
 // sealRaw sets bookkeepers and signatures explicitly (sigs may be over another hash).
 func sealRaw(blk *types.Block, keys []*account.Account, signers []*account.Account, over []byte) {
@@ -161,6 +150,11 @@ func (s *Sim) badSubmission(st kernel.Step) {
 	nd := s.Nodes[int(abs(st.Arg(2)))%len(s.Nodes)]
 	x := abs(st.Arg(3))
 	nd.Use()
+	if int(nd.Height()) != len(s.Blocks) {
+		// a node left the engine's chain (only possible after a reported violation): stop using it
+		s.Dead = true
+		return
+	}
 	vs, err := nd.CurrentSet()
 	if err != nil {
 		panic(err)
@@ -352,6 +346,7 @@ func (s *Sim) badSubmission(st kernel.Step) {
 	if accepted {
 		if verdict != "" {
 			run.Fail(prop, "accepted-invalid-successor:"+ruleName(verdict), "%s via path %d on %s was committed although it breaks the rule %q", name, path, nd.Name, verdict)
+			s.Dead = true
 			return
 		}
 		run.Probe("valid_submission_accepted:" + name)
@@ -421,12 +416,19 @@ func (s *Sim) adoptBlock(nd *chain.Node, blk *types.Block, root common.Uint256) 
 	_ = res
 	s.Blocks = append(s.Blocks, rec)
 	for _, o := range s.Nodes {
-		if o == nd {
+		if o == nd || o == s.lagNode() {
 			continue
 		}
 		for int(o.Height()) < len(s.Blocks) {
 			b := s.Blocks[o.Height()]
-			if err := o.Sync(b.Block, b.Result.MerkleRoot); err != nil {
+			before := o.Height()
+			err := o.Sync(b.Block, b.Result.MerkleRoot)
+			if err == nil && o.Height() == before {
+				s.R.Fail("C13", "valid-successor-silently-not-applied", "node %s returned success for block %d but did not apply it", o.Name, b.Block.Header.Height)
+				s.Dead = true
+				return
+			}
+			if err != nil {
 				s.R.Fail("C16", "replica-rejected-block", "node %s rejected block %d committed by %s: %v", o.Name, b.Block.Header.Height, nd.Name, err)
 				return
 			}
@@ -441,6 +443,7 @@ func (s *Sim) dropHeaderLead(nd *chain.Node) {
 	nd.Close()
 	if err := nd.Open(); err != nil {
 		s.R.Fail("C12", "clean-restart-failed", "node %s failed to restart: %v", nd.Name, err)
+		s.Dead = true
 	}
 }
 
@@ -463,6 +466,9 @@ func (s *Sim) checkLookups(rec *BlockRec) {
 	h := rec.Block.Header.Height
 	for _, nd := range s.Nodes {
 		l := nd.L
+		if nd == s.lagNode() && l.GetCurrentBlockHeight() < h {
+			continue
+		}
 		if l.GetCurrentBlockHeight() != h || l.GetCurrentBlockHash() != rec.Block.Hash() {
 			run.Fail("C13", "tip-not-the-committed-block", "%s: tip (%d,%x) is not the committed block (%d,%x)", nd.Name, l.GetCurrentBlockHeight(), l.GetCurrentBlockHash(), h, rec.Block.Hash())
 			continue
